@@ -53,6 +53,8 @@ and `Ref.eval`/`Ref.runProgram` themselves:
 * `compile_correct_on_F2`       — `CompileCorrect` restricted to F2: `defn`/`fn` of fixed arity at any
                                   depth, closures capturing locals, calls by name, recursion,
                                   functions as values.
+* `segment_lemma_Fx`, `compile_correct_on_F2x` — F2 with `break`/`continue` (plain or labelled) in
+                                  top-level `for` loops: the simulation gets a non-landing outcome.
 
 `compile_correct_partial` (below) says what is proved of the semantic statement and names
 the unproved remainder (`CompileCorrectOutsideProved`).
@@ -1113,14 +1115,14 @@ example : ∃ fuel' o, obsOfRef (Ref.runProgram 12 demoBrk Ref.initSt).1 = some 
   | cont l rs' => rw [hres] at h; simp [refClass] at h
 
 /-- the programs covered by a theorem: every top-level form in Fv, or every top-level form in Fc,
-or every top-level form in F2 -/
+or every top-level form in F2, or every top-level form in Fx (F2 with `break`/`continue` in top-level loops) -/
 def InProvedFragment (p : List Expr) : Prop := FvList p = true ∨ FcList p = true ∨ FtList p = true ∨ FxTop p = true
 
-/-- **The part of `CompileCorrect` that is NOT proved**: programs that are in none of Fv, Fc, F2 —
+/-- **The part of `CompileCorrect` that is NOT proved**: programs that are in none of Fv, Fc, F2, Fx —
 i.e. using a `fn`/`defn` inside
 an operand of a call (compiled at run time), with a rest parameter, lazy parameters or a self call
 in a directly compiled position, `map`/`apply`/`force`/`substitute`, computed call heads,
-`break`/`continue` (and so loops that use them), an empty `newScope`, or (together with calls or
+`break`/`continue` inside a function body, an empty `newScope`, or (together with calls or
 array literals) a binder that re-uses a builtin name. Held by the 3-way `eval` correspondence on
 every run, not by a theorem. -/
 def CompileCorrectOutsideProved : Prop := CompileCorrectOn (fun p => ¬ InProvedFragment p)
@@ -1140,15 +1142,17 @@ def CompileCorrectOutsideProved : Prop := CompileCorrectOn (fun p => ¬ InProved
      variables: functions are values), recursion, first-order builtins, `def`/`set`/`begin`/`cond`/
      `and`/`or`/`newScope`/`letseq`/`let`/array literals/`for` loops;
      values related modulo the numbering of closures — `compile_correct_on_F2`;
+   * Fx — F2 plus `break`/`continue` (plain or labelled) of the enclosing `for` loops in top-level code,
+     under `begin`/`cond`/`let`/`letseq`/`newScope`/nested loop bodies: a non-landing outcome of the
+     simulation (`Sim.SimX`, `Sim.JumpedF`) — `compile_correct_on_F2x`;
    * for the effect-free sub-fragment F0c with explicit fuel on both sides — `compile_correct_F0c`;
 2. the full `CompileCorrect` follows from its restriction to the remaining programs
    (`CompileCorrectOutsideProved`, the precise unproved remainder);
 3. the layout half for `begin`/`cond`/`and`/`or` as before (and `gen_for_layout` for loops).
 
 MISSING (held by the `eval` correspondence only): `CompileCorrectOutsideProved` — `break`/`continue`
-(the rest of F1; generator-side groundwork in Proofs/SimFbGen.lean), the rest of F2 (`fn`/`defn`
-inside operands, varargs), F3 (self tail calls, `map`/`apply`,
-lazy parameters). -/
+inside function bodies (the loop contexts of `Sim.CtxF` are stated for top-level code), the rest of F2
+(`fn`/`defn` inside operands, varargs), F3 (self tail calls, `map`/`apply`, lazy parameters). -/
 theorem compile_correct_partial :
     CompileCorrectOn InProvedFragment
     ∧ (CompileCorrectOutsideProved → CompileCorrect)
